@@ -1,9 +1,7 @@
 (* C15: the model of update_counters / element_to_box (per-name value stacks + stack of name sets) refines the
    reference interpreter of CSS counter scoping (stack of levels), for every DOM tree in which
-     - no style both sets and increments counters (the code applies counter-set before counter-increment, CSS
-       Lists 3 the other way round: see counter_set_order_refuted), and
-     - a list item with an explicit counter-increment names list-item in it (the code drops the implicit
-       list-item increment otherwise: see implicit_list_item_refuted).
+     a list item with an explicit counter-increment names list-item in it (the code drops the implicit
+     list-item increment of CSS Lists 3 section 4.6 otherwise: see implicit_list_item_refuted).
    The model never raises (the assertions and pops of update_counters are safe) and every generated box
    observes the same counter stacks as the reference. *)
 From Coq Require Import ZArith List String Bool Lia.
@@ -81,6 +79,13 @@ Qed.
 Lemma pick_update_other n m f l : n <> m -> pick m (update_assoc n f l) = pick m l.
 Proof. intros Hne. unfold pick. rewrite assoc_update_other by exact Hne. reflexivity. Qed.
 
+Lemma pick_update_same n f l v : assoc n l = Some v -> pick n (update_assoc n f l) = [f v].
+Proof. intros H. unfold pick. rewrite (assoc_update_same n f l v H). reflexivity. Qed.
+Lemma pick_cons_same n v l : pick n ((n, v) :: l) = [v].
+Proof. unfold pick. cbn [assoc]. rewrite String.eqb_refl. reflexivity. Qed.
+Lemma pick_cons_other n m v l : n <> m -> pick m ((n, v) :: l) = pick m l.
+Proof. intros H. unfold pick. cbn [assoc]. destruct (String.eqb_spec n m); [contradiction|reflexivity]. Qed.
+
 Lemma upd_fun_same f n v : upd_fun f n v n = v.
 Proof. unfold upd_fun. rewrite String.eqb_refl. reflexivity. Qed.
 Lemma upd_fun_other f n m v : n <> m -> upd_fun f n v m = f m.
@@ -97,19 +102,18 @@ Proof.
     rewrite (Hv n). cbn [flat_map]. rewrite Hp. cbn [app].
     eexists. split; [reflexivity|]. constructor; cbn [values scopes].
     + intros m. destruct (String.eqb_spec n m) as [<-|Hnm].
-      * rewrite upd_fun_same. cbn [flat_map]. unfold pick at 1.
-        rewrite (assoc_update_same n (fun _ => v) l old Ha). reflexivity.
+      * rewrite upd_fun_same. cbn [flat_map]. rewrite (pick_update_same n (fun _ => v) l old Ha). reflexivity.
       * rewrite upd_fun_other by exact Hnm. rewrite (Hv m). cbn [flat_map].
         rewrite pick_update_other by exact Hnm. reflexivity.
-    + rewrite Hs. cbn [map]. rewrite keys_update. reflexivity.
+    + cbn [map]. rewrite keys_update. reflexivity.
     + constructor; [rewrite keys_update; exact Hl|exact Hrest].
     + discriminate.
   - eexists. split; [reflexivity|]. constructor; cbn [values scopes].
     + intros m. destruct (String.eqb_spec n m) as [<-|Hnm].
-      * rewrite upd_fun_same. rewrite (Hv n). cbn [flat_map]. unfold pick at 2. cbn [assoc].
-        rewrite String.eqb_refl. rewrite (pick_in_level n l Hin). reflexivity.
-      * rewrite upd_fun_other by exact Hnm. rewrite (Hv m). cbn [flat_map]. unfold pick at 2. cbn [assoc].
-        destruct (String.eqb_spec n m); [contradiction|]. reflexivity.
+      * rewrite upd_fun_same. rewrite (Hv n). cbn [flat_map]. rewrite pick_cons_same.
+        rewrite (pick_in_level n l Hin). reflexivity.
+      * rewrite upd_fun_other by exact Hnm. rewrite (Hv m). cbn [flat_map].
+        rewrite pick_cons_other by exact Hnm. reflexivity.
     + reflexivity.
     + constructor; [|exact Hrest]. cbn [keys map fst]. constructor; [|exact Hl].
       intros Hc. apply in_level_In in Hc. congruence.
@@ -137,7 +141,7 @@ Proof.
   destruct (in_level n l) eqn:Hin.
   - injection E as <-. destruct (pick_in_level_true n l Hin) as (v & Hp & Ha).
     exists v, (flat_map (pick n) rest). cbn [flat_map]. rewrite Hp. split; [reflexivity|]. split.
-    + unfold pick at 1. rewrite (assoc_update_same n f l v Ha). reflexivity.
+    + rewrite (pick_update_same n f l v Ha). reflexivity.
     + split.
       * intros m Hnm. rewrite pick_update_other by exact Hnm. reflexivity.
       * cbn [map]. rewrite keys_update. reflexivity.
@@ -169,7 +173,7 @@ Proof.
     + intros m. destruct (String.eqb_spec n m) as [<-|Hnm].
       * rewrite upd_fun_same. symmetry. exact H2.
       * rewrite upd_fun_other by exact Hnm. rewrite (Hv m). symmetry. apply H3. exact Hnm.
-    + rewrite Hs, H4. reflexivity.
+    + rewrite H4. reflexivity.
     + apply (modify_innermost_nodup f n _ _ Em Hnd).
     + intros ->. simpl in H4. discriminate.
   - pose proof (proj1 (modify_innermost_none f n (l :: rest)) Em) as Hnone.
@@ -180,10 +184,11 @@ Proof.
     rewrite Hin. eexists. split; [reflexivity|].
     inversion Hnd as [|? ? Hl Hrest]; subst. constructor; cbn [values scopes].
     + intros m. destruct (String.eqb_spec n m) as [<-|Hnm].
-      * rewrite upd_fun_same. cbn [flat_map]. unfold pick at 1. cbn [assoc]. rewrite String.eqb_refl.
-        cbn [flat_map] in Hnone. rewrite (pick_in_level n l Hin) in *. cbn [app] in *. rewrite Hnone. reflexivity.
-      * rewrite upd_fun_other by exact Hnm. rewrite (Hv m). cbn [flat_map]. unfold pick at 2. cbn [assoc].
-        destruct (String.eqb_spec n m); [contradiction|]. reflexivity.
+      * rewrite upd_fun_same. cbn [flat_map]. rewrite pick_cons_same.
+        cbn [flat_map] in Hnone. rewrite (pick_in_level n l Hin) in Hnone. cbn [app] in Hnone.
+        rewrite Hnone. reflexivity.
+      * rewrite upd_fun_other by exact Hnm. rewrite (Hv m). cbn [flat_map].
+        rewrite pick_cons_other by exact Hnm. reflexivity.
     + reflexivity.
     + constructor; [|exact Hrest]. cbn [keys map fst]. constructor; [|exact Hl].
       intros Hc. apply in_level_In in Hc. congruence.
@@ -200,32 +205,27 @@ Proof.
   - destruct (Hstep st lv a HR) as (st1 & -> & HR1). apply IH. exact HR1.
 Qed.
 
-(* the side condition on one style *)
-Definition ok_props (p : props) : Prop :=
-  spec_increments p = increments p /\ (p_set p = [] \/ increments p = []).
+(* the side condition on one style: a list item's explicit counter-increment names list-item *)
+Definition ok_props (p : props) : Prop := spec_increments p = increments p.
 
 Lemma R_update st lv p : ok_props p -> R st lv ->
   exists st', update_counters st p = Some st' /\ R st' (ref_update lv p).
 Proof.
-  intros [Hinc Hdisj] HR. unfold update_counters, ref_update. rewrite Hinc.
+  intros Hinc HR. unfold update_counters, ref_update. rewrite Hinc.
   destruct (R_fold do_reset ref_reset (fun s l a => R_reset s l a) (p_reset p) st lv HR) as (st1 & -> & HR1).
-  destruct Hdisj as [Hs|Hi].
-  - rewrite Hs. cbn [fold_opt fold_left].
-    apply (R_fold (fun s nv => do_modify (fun x => x + snd nv) s (fst nv))
-                  (fun s nv => ref_modify (fun x => x + snd nv) s (fst nv))).
-    + intros s l a H. apply R_modify. exact H.
-    + exact HR1.
-  - rewrite Hi. cbn [fold_left].
-    destruct (R_fold (fun s nv => do_modify (fun _ => snd nv) s (fst nv))
-                     (fun s nv => ref_modify (fun _ => snd nv) s (fst nv))
-                     (fun s l a H => R_modify _ s l (fst a) H) (p_set p) st1 _ HR1) as (st2 & -> & HR2).
-    cbn [fold_opt]. exists st2. auto.
+  destruct (R_fold (fun s nv => do_modify (fun x => x + snd nv) s (fst nv))
+                   (fun s nv => ref_modify (fun x => x + snd nv) s (fst nv))
+                   (fun s l a H => R_modify _ s l (fst a) H) (increments p) st1 _ HR1) as (st2 & -> & HR2).
+  apply (R_fold (fun s nv => do_modify (fun _ => snd nv) s (fst nv))
+                (fun s nv => ref_modify (fun _ => snd nv) s (fst nv))).
+  - intros s l a H. apply R_modify. exact H.
+  - exact HR2.
 Qed.
 
 Lemma R_push st lv : R st lv -> R (push_scope st) ([] :: lv).
 Proof.
   intros [Hv Hs Hnd Hne]. constructor; cbn [push_scope values scopes].
-  - intros n. cbn [flat_map]. unfold pick at 1. cbn [assoc app]. apply Hv.
+  - intros n. cbn [flat_map]. change (pick n []) with (@nil Z). cbn [app]. apply Hv.
   - rewrite Hs. reflexivity.
   - constructor; [constructor|exact Hnd].
   - discriminate.
@@ -241,13 +241,11 @@ Proof.
   induction l as [|[k v] l IH]; intros vals sc V Hnd Hvals; cbn [keys map fst fold_opt].
   - eexists. split; [reflexivity|]. split; [|reflexivity]. intros n. cbn [values]. rewrite Hvals. reflexivity.
   - inversion Hnd as [|? ? Hk Hnd']; subst.
-    unfold pop_one at 1. cbn [values scopes]. rewrite (Hvals k). unfold pick at 1. cbn [assoc].
-    rewrite String.eqb_refl. cbn [app].
+    unfold pop_one at 1. cbn [values scopes]. rewrite (Hvals k). rewrite pick_cons_same. cbn [app].
     apply (IH _ sc V Hnd'). intros n. destruct (String.eqb_spec k n) as [<-|Hkn].
     + rewrite upd_fun_same. rewrite pick_in_level; [reflexivity|].
       destruct (in_level k l) eqn:E; [|reflexivity]. apply in_level_In in E. contradiction.
-    + rewrite upd_fun_other by exact Hkn. rewrite (Hvals n). unfold pick at 1. cbn [assoc].
-      destruct (String.eqb_spec k n); [contradiction|]. reflexivity.
+    + rewrite upd_fun_other by exact Hkn. rewrite (Hvals n). rewrite pick_cons_other by exact Hkn. reflexivity.
 Qed.
 
 Lemma R_pop st l lv : R st (l :: lv) -> lv <> [] -> exists st', pop_scope st = Some st' /\ R st' lv.
@@ -284,51 +282,50 @@ Proof.
   - exists st, []. split; [reflexivity|]. split; [exact HR|constructor].
 Qed.
 
-Lemma ref_levels_tail : forall lv, lv <> [] -> True. Proof. auto. Qed.
-
 (* the number of levels is preserved by every reference operation *)
-Lemma len_ref_reset lv nv : length (ref_reset lv nv) = length lv.
+Lemma len_ref_reset lv nv : List.length (ref_reset lv nv) = List.length lv.
 Proof. destruct lv; reflexivity. Qed.
-Lemma len_modify_innermost f n : forall lv lv', modify_innermost f n lv = Some lv' -> length lv' = length lv.
+Lemma len_modify_innermost f n : forall lv lv', modify_innermost f n lv = Some lv' -> List.length lv' = List.length lv.
 Proof.
   induction lv as [|l rest IH]; intros lv' E; simpl in E; [discriminate|].
   destruct (in_level n l); [injection E as <-; reflexivity|].
   destruct (modify_innermost f n rest) eqn:Er; [|discriminate]. injection E as <-. simpl. f_equal. apply IH. reflexivity.
 Qed.
-Lemma len_ref_modify f lv n : length (ref_modify f lv n) = length lv.
+Lemma len_ref_modify f lv n : List.length (ref_modify f lv n) = List.length lv.
 Proof.
   unfold ref_modify. destruct (modify_innermost f n lv) eqn:E; [apply (len_modify_innermost f n _ _ E)|].
   destruct lv; reflexivity.
 Qed.
 Lemma len_fold {A} (g : list level -> A -> list level) :
-  (forall lv a, length (g lv a) = length lv) -> forall l lv, length (fold_left g l lv) = length lv.
+  (forall lv a, List.length (g lv a) = List.length lv) -> forall l lv, List.length (fold_left g l lv) = List.length lv.
 Proof. intros Hg. induction l as [|a l IH]; intros lv; simpl; [reflexivity|]. rewrite IH. apply Hg. Qed.
-Lemma len_ref_update lv p : length (ref_update lv p) = length lv.
+Lemma len_ref_update lv p : List.length (ref_update lv p) = List.length lv.
 Proof.
   unfold ref_update. rewrite !len_fold; auto; intros; try apply len_ref_modify. apply len_ref_reset.
 Qed.
-Lemma len_ref_pseudo lv ps : length (fst (ref_pseudo lv ps)) = length lv.
+Lemma len_ref_pseudo lv ps : List.length (fst (ref_pseudo lv ps)) = List.length lv.
 Proof. destruct ps; simpl; [apply len_ref_update|reflexivity]. Qed.
 
 Definition refines (nd : node) : Prop :=
   ok_tree nd -> forall st lv, R st lv ->
   exists st' o, run_node st nd = Some (st', o) /\ R st' (fst (ref_node lv nd)) /\
-                obs_eq o (snd (ref_node lv nd)) /\ length (fst (ref_node lv nd)) = length lv.
+                obs_eq o (snd (ref_node lv nd)) /\ List.length (fst (ref_node lv nd)) = List.length lv.
 
 Lemma refines_kids kids : Forall refines kids ->
   (fix all (l : list node) : Prop := match l with [] => True | k :: tl => ok_tree k /\ all tl end) kids ->
   forall st lv, R st lv ->
   exists st' o, run_nodes st kids = Some (st', o) /\ R st' (fst (ref_nodes lv kids)) /\
-                obs_eq o (snd (ref_nodes lv kids)) /\ length (fst (ref_nodes lv kids)) = length lv.
+                obs_eq o (snd (ref_nodes lv kids)) /\ List.length (fst (ref_nodes lv kids)) = List.length lv.
 Proof.
   induction 1 as [|k tl Hk _ IH]; intros Hok st lv HR; cbn [run_nodes ref_nodes].
-  - exists st, []. repeat split; auto. constructor.
+  - exists st, []. split; [reflexivity|]. split; [exact HR|]. split; [constructor|reflexivity].
   - destruct Hok as [Hokk Hoktl].
     destruct (Hk Hokk st lv HR) as (st1 & o1 & -> & HR1 & Ho1 & Hl1).
     destruct (ref_node lv k) as [lv1 r1] eqn:E1. cbn [fst snd] in *.
     destruct (IH Hoktl st1 lv1 HR1) as (st2 & o2 & -> & HR2 & Ho2 & Hl2).
     destruct (ref_nodes lv1 tl) as [lv2 r2] eqn:E2. cbn [fst snd] in *.
-    exists st2, (o1 ++ o2). repeat split; auto; [apply obs_eq_app; assumption|congruence].
+    exists st2, (o1 ++ o2). split; [reflexivity|]. split; [exact HR2|].
+    split; [apply obs_eq_app; assumption|congruence].
 Qed.
 
 (* the inner fixes of run_node / ref_node are run_nodes / ref_nodes *)
@@ -361,29 +358,30 @@ Proof.
   apply node_ind'. intros d p b kids a IHk Hok st lv HR.
   destruct Hok as (Hp & Hb & Ha & Hkids).
   cbn [run_node ref_node]. destruct d; cbn [negb].
-  2:{ exists st, []. repeat split; auto. constructor. }
-  rewrite run_kids_eq, ref_kids_eq.
+  2:{ exists st, []. split; [reflexivity|]. split; [exact HR|]. split; [constructor|reflexivity]. }
   destruct (R_update st lv p Hp HR) as (st1 & -> & HR1).
   pose proof (R_push _ _ HR1) as HR2.
   destruct (R_pseudo _ _ b Hb HR2) as (st3 & ob & -> & HR3 & Hob).
   pose proof (len_ref_pseudo ([] :: ref_update lv p) b) as Hl3.
   destruct (ref_pseudo ([] :: ref_update lv p) b) as [lv3 rb] eqn:Eb. cbn [fst snd] in *.
+  rewrite run_kids_eq, ref_kids_eq.
   destruct (refines_kids kids IHk Hkids st3 lv3 HR3) as (st4 & ok & -> & HR4 & Hok4 & Hl4).
   destruct (ref_nodes lv3 kids) as [lv4 rk] eqn:Ek. cbn [fst snd] in *.
   destruct (R_pseudo _ _ a Ha HR4) as (st5 & oa & -> & HR5 & Hoa).
   pose proof (len_ref_pseudo lv4 a) as Hl5.
   destruct (ref_pseudo lv4 a) as [lv5 ra] eqn:Ea. cbn [fst snd] in *.
-  assert (Hlen5 : length lv5 = S (length lv)).
-  { rewrite Hl5, Hl4, Hl3. cbn [length]. rewrite len_ref_update. reflexivity. }
+  assert (Hlen5 : List.length lv5 = S (List.length lv)).
+  { rewrite Hl5, Hl4, Hl3. cbn [List.length]. rewrite len_ref_update. reflexivity. }
   destruct lv5 as [|l5 rest5]; [discriminate|]. cbn [tl].
   assert (Hne : rest5 <> []).
-  { intros ->. cbn [length] in Hlen5. destruct lv; [exact (R_nonempty _ _ HR eq_refl)|discriminate]. }
+  { intros ->. cbn [List.length] in Hlen5. destruct lv; [exact (R_nonempty _ _ HR eq_refl)|discriminate]. }
   destruct (R_pop st5 l5 rest5 HR5 Hne) as (st6 & -> & HR6).
-  exists st6, (values (push_scope st1) :: ob ++ ok ++ oa). repeat split; auto.
+  exists st6, (values (push_scope st1) :: ob ++ ok ++ oa).
+  split; [reflexivity|]. split; [exact HR6|]. split.
   - constructor.
     + intros n. apply (R_values _ _ HR2).
     + repeat apply obs_eq_app; assumption.
-  - cbn [length] in Hlen5. lia.
+  - cbn [List.length] in Hlen5. lia.
 Qed.
 
 Example ok_tree_ex :
@@ -397,9 +395,10 @@ Proof. cbv. repeat split; auto. Qed.
 Lemma R_init : R init_state init_levels.
 Proof.
   constructor.
-  - intros n. cbn. unfold pick. cbn. rewrite String.eqb_sym. destruct (String.eqb n "footnote"); reflexivity.
+  - intros n. unfold init_state, init_levels. cbn [values flat_map]. unfold pick. cbn [assoc].
+    rewrite (String.eqb_sym "footnote" n). destruct (String.eqb n "footnote"); reflexivity.
   - reflexivity.
-  - constructor; [|constructor]. cbn. constructor; [intros []|constructor].
+  - constructor; [|constructor]. unfold keys. cbn [map fst]. constructor; [intros []|constructor].
   - discriminate.
 Qed.
 
@@ -408,4 +407,23 @@ Corollary document_refines_spec nd : ok_tree nd ->
 Proof.
   intros Hok. destruct (counters_refine_spec nd Hok init_state init_levels R_init) as (st' & o & H1 & _ & H3 & _).
   exists st', o. auto.
+Qed.
+
+(* ------------------------------------------------------------------------ where the code leaves CSS *)
+(* <ol><li>a<li style="counter-increment: x">b<li>c</ol> : CSS Lists 3 (4.6) numbers the items 1 2 3, the code
+   1 1 2 (an explicit counter-increment that does not name list-item suppresses the implicit increment). *)
+Definition li_plain : node := Elem true (mkProps [] [] None true) None [] None.
+Definition li_with_x : node := Elem true (mkProps [] [] (Some [("x"%string, 1)]) true) None [] None.
+Definition witness_list : node :=
+  Elem true (mkProps [("list-item"%string, 0)] [] None false) None [li_plain; li_with_x; li_plain] None.
+
+Theorem implicit_list_item_refuted :
+  exists nd st o, run_node init_state nd = Some (st, o) /\
+                  map (fun ob => ob "list-item"%string) o = [[0]; [1]; [1]; [2]] /\
+                  map (fun ob => ob "list-item"%string) (snd (ref_node init_levels nd)) = [[0]; [1]; [2]; [3]].
+Proof.
+  exists witness_list. destruct (run_node init_state witness_list) as [[st o]|] eqn:E; [|vm_compute in E; discriminate].
+  exists st, o. split; [reflexivity|]. split.
+  - vm_compute in E. injection E as _ <-. reflexivity.
+  - reflexivity.
 Qed.
